@@ -92,7 +92,14 @@ pub fn binary(n: usize) -> Value {
         let tl = rng.gen_range(0..6);
         let t: String = (0..tl).map(|_| char::from_u32(rng.gen_range(0x20u32..0x2fff)).unwrap_or('x')).collect();
         let pl = rng.gen_range(0..40);
-        let p: Vec<u8> = (0..pl).map(|_| if rng.gen_bool(0.3) { b' ' } else { rng.gen() }).collect();
+        let mut p: Vec<u8> = (0..pl).map(|_| if rng.gen_bool(0.3) { b' ' } else { rng.gen() }).collect();
+        // every fourth payload is itself a complete encoding (of the same type, sometimes followed by more bytes)
+        if i % 4 == 3 {
+            p = in_toto::verif::pae_pack(t.clone(), &p);
+            if i % 8 == 7 {
+                p.push(rng.gen());
+            }
+        }
         let packed = in_toto::verif::pae_pack(t.clone(), &p);
         let r = guarded(|| in_toto::verif::pae_unpack(&packed));
         let ok = matches!(&r, Ok(Ok((pp, tt))) if *pp == p && *tt == t);
